@@ -392,6 +392,8 @@ theorem icOk_of_condTrue (row : Row) (u : UUID) (cnd : Cond) (ic : IndexableCond
         · cases hi
         · -- map includes
           rename_i mv hval hf
+          split at hi
+          · cases hi
           cases hi
           refine ⟨rfl, rv, hrv', ?_⟩
           simp only [hf, hval] at hev
